@@ -139,7 +139,21 @@ class FakeTransport(asyncio.Transport):
     # ------------------------------------------------------- harness side
     def attach(self):
         self.ev("connection_made")
-        self.protocol.connection_made(self)
+        try:
+            self.protocol.connection_made(self)
+        except (SystemExit, KeyboardInterrupt):
+            raise
+        except BaseException as e:  # noqa: BLE001
+            # sslproto calls the application's connection_made() from its read path: an exception escaping it is a
+            # fatal error on the SSL protocol - the connection is aborted, the peer gets nothing
+            self.fatal = e
+            self.ev("fatal", repr(e))
+            self.loop.call_exception_handler({"message": "Fatal error: protocol.connection_made() call failed.", "exception": e})
+            self.closing = True
+            self.aborted = True
+            if self.close_time is None:
+                self.close_time = self.loop.time()
+            self.loop.call_soon(self._lost, e)
 
     def feed(self, data: bytes) -> bool:
         """Deliver bytes from the peer.  Returns False when the transport no longer reads."""
@@ -351,7 +365,15 @@ class FakeTCP(asyncio.Transport):
     # harness side
     def attach(self):
         self.ev("connection_made")
-        self.protocol.connection_made(self)
+        try:
+            self.protocol.connection_made(self)
+        except (SystemExit, KeyboardInterrupt):
+            raise
+        except BaseException as e:  # noqa: BLE001
+            # selector transport: connection_made() runs as a call_soon callback - an exception is reported to the
+            # loop's exception handler and the transport carries on (reading starts regardless)
+            self.ev("connection_made_raised", repr(e))
+            self.loop.call_exception_handler({"message": "Exception in callback protocol.connection_made()", "exception": e})
 
     def feed(self, data: bytes) -> bool:
         if self.closing or self.lost:
